@@ -137,7 +137,7 @@ fn c17_execute_a2() {
     c17_execute(2)
 }
 
-// HARNESS props=C06,C17 tier=quick profile=ops shape="constructor"
+// HARNESS props=C06,C17 tier=quick profile=ops mode=strict shape="constructor, then owner and membership queries; nothing may trap"
 #[kani::proof]
 fn c17_constructor() {
     let env = Env::default();
@@ -146,6 +146,7 @@ fn c17_constructor() {
     let o = model::with_contract(&ops(), || AxelarOperators::owner(&env));
     let probe = any::address(4);
     kani::assert(o == owner, "VERIF:C06:construction installs exactly the given owner");
-    kani::assert(!member(&probe), "VERIF:C17:a new operators contract has no operators");
+    let q = model::with_contract(&ops(), || AxelarOperators::is_operator(env.clone(), probe.clone()));
+    kani::assert(!q && !member(&probe), "VERIF:C17:a new operators contract has no operators");
     kani::cover!(true, "VERIF:reach:constructed");
 }
